@@ -17,6 +17,8 @@ import (
 	"errors"
 	"sync"
 	"time"
+
+	"github.com/facebookincubator/dns/dnsrocks/verifhook"
 )
 
 type sample struct {
@@ -62,6 +64,7 @@ func (sw *slidingWindow) cleaner() {
 	for {
 		select {
 		case <-ticker.C:
+			verifhook.Yield("swindow.tick")
 			sw.mutex.Lock()
 			newstartidx := 0
 			for idx, val := range sw.samples {
